@@ -40,6 +40,9 @@ Codec/ReaderProofs.vos Codec/ReaderProofs.vok Codec/ReaderProofs.required_vos: C
 Codec/RulesShape.vo Codec/RulesShape.glob Codec/RulesShape.v.beautified Codec/RulesShape.required_vo: Codec/RulesShape.v Gen/CodecGen.vo Codec/Reader.vo Codec/Varint.vo Codec/Universe.vo
 Codec/RulesShape.vio: Codec/RulesShape.v Gen/CodecGen.vio Codec/Reader.vio Codec/Varint.vio Codec/Universe.vio
 Codec/RulesShape.vos Codec/RulesShape.vok Codec/RulesShape.required_vos: Codec/RulesShape.v Gen/CodecGen.vos Codec/Reader.vos Codec/Varint.vos Codec/Universe.vos
+Codec/RulesShapeProofs.vo Codec/RulesShapeProofs.glob Codec/RulesShapeProofs.v.beautified Codec/RulesShapeProofs.required_vo: Codec/RulesShapeProofs.v Gen/CodecGen.vo Codec/Reader.vo Codec/Varint.vo Codec/Universe.vo Codec/RulesShape.vo
+Codec/RulesShapeProofs.vio: Codec/RulesShapeProofs.v Gen/CodecGen.vio Codec/Reader.vio Codec/Varint.vio Codec/Universe.vio Codec/RulesShape.vio
+Codec/RulesShapeProofs.vos Codec/RulesShapeProofs.vok Codec/RulesShapeProofs.required_vos: Codec/RulesShapeProofs.v Gen/CodecGen.vos Codec/Reader.vos Codec/Varint.vos Codec/Universe.vos Codec/RulesShape.vos
 Codec/Universe.vo Codec/Universe.glob Codec/Universe.v.beautified Codec/Universe.required_vo: Codec/Universe.v Codec/Reader.vo Codec/Varint.vo
 Codec/Universe.vio: Codec/Universe.v Codec/Reader.vio Codec/Varint.vio
 Codec/Universe.vos Codec/Universe.vok Codec/Universe.required_vos: Codec/Universe.v Codec/Reader.vos Codec/Varint.vos
